@@ -40,6 +40,9 @@ type Violation struct {
 	// Stress > 0: found on a path whose schedule is not the run-to-completion one; the native
 	// replay cannot steer the scheduler and repeats the harness up to Stress times instead.
 	Stress int `json:"stress,omitempty"`
+	// Abstract: found on a path that went through an over-approximating model; such
+	// counterexamples need not replay and do not count towards the stop quota.
+	Abstract bool `json:"abstract,omitempty"`
 }
 
 type CoverWitness struct {
@@ -778,10 +781,20 @@ func (ex *Exec) assertCheckP(r *Runner, h *Harness, tag string, cond *Term, pref
 	case Sat:
 		m = ex.realize(outside, m)
 		in, order := ex.modelInputs(m)
-		v := &Violation{Harness: h.Name, Tag: tag, Kind: "assert", Inputs: in, Order: order, Stack: ex.stackString(), Stress: ex.stressRounds()}
+		v := &Violation{Harness: h.Name, Tag: tag, Kind: "assert", Inputs: in, Order: order, Stack: ex.stackString(), Stress: ex.stressRounds(), Abstract: ex.abstracted}
 		h.mu.Lock()
-		h.Violations = append(h.Violations, v)
-		if len(h.Violations) >= 8 {
+		nAbs, nReal := 0, 0
+		for _, o := range h.Violations {
+			if o.Abstract {
+				nAbs++
+			} else {
+				nReal++
+			}
+		}
+		if !v.Abstract || nAbs < 4 {
+			h.Violations = append(h.Violations, v)
+		}
+		if !v.Abstract && nReal+1 >= 8 {
 			h.stop = true
 		}
 		h.mu.Unlock()
